@@ -170,6 +170,18 @@ def roots(ctx, sym, ferm):
         kw = dict(ferm=True, phases="probe", label=3) if ferm else {}
         for d in U.arrays(sym, n, menu, "a", charges, sp, **kw):
             out.append((n, d))
+    # arrays whose leading two axes are a (bra, ket) / (ket, bra) pair of the same index: einsum / trace / eigh apply to the root itself
+    from ..arrays import conj_ixd
+    from .. import groups as GG
+
+    for n in (2, 3):
+        for rest in U.index_tuples(sym, n - 1, "m2", "a"):
+            for first_dual in (True, False):
+                lead = (rest[0][0], first_dual, None)
+                indices = (lead, conj_ixd(lead)) + tuple(rest[1:])
+                kw = dict(ferm=True, phases="probe", label=3) if ferm else {}
+                for d in U.arrays_over(sym, indices, "two", "probe", **kw):
+                    out.append((n, d))
     return out
 
 
